@@ -191,7 +191,7 @@ func (m *readerModel) nextOrPeek(op string, n int, advance bool) {
 	m.begin(op, n)
 	c.Tracef("op%d %s(%d)   [consumed %d, deliverable %d]", m.opIndex, op, n, m.pos, m.avail)
 	before := m.r.ReadLen()
-	c.Guard(m.site(op), func() {
+	c.GuardNoOOM(m.site(op), func() {
 		if advance {
 			buf, err = m.r.Next(n)
 		} else {
@@ -265,7 +265,7 @@ func (m *readerModel) Skip(n int) {
 	m.begin("Skip", n)
 	c.Tracef("op%d Skip(%d)   [consumed %d, deliverable %d]", m.opIndex, n, m.pos, m.avail)
 	before := m.r.ReadLen()
-	c.Guard(m.site("Skip"), func() { err = m.r.Skip(n) })
+	c.GuardNoOOM(m.site("Skip"), func() { err = m.r.Skip(n) })
 	c.Tracef("  => err %v", err)
 	if err != nil {
 		if after := m.r.ReadLen(); after != before {
@@ -304,7 +304,7 @@ func (m *readerModel) ReadBinary(l int, junk byte) {
 	m.begin("ReadBinary", l)
 	c.Tracef("op%d ReadBinary(len %d)   [consumed %d, deliverable %d]", m.opIndex, l, m.pos, m.avail)
 	before := m.r.ReadLen()
-	c.Guard(m.site("ReadBinary"), func() { got, err = m.r.ReadBinary(bs) })
+	c.GuardNoOOM(m.site("ReadBinary"), func() { got, err = m.r.ReadBinary(bs) })
 	c.Tracef("  => %d, err %v", got, err)
 	after := m.r.ReadLen()
 	site := m.site("ReadBinary")
@@ -349,7 +349,7 @@ func (m *readerModel) Release() {
 	m.verifyKept("before Release")
 	m.kept = m.kept[:0]
 	var err error
-	c.Guard(m.site("Release"), func() { err = m.r.Release(nil) })
+	c.GuardNoOOM(m.site("Release"), func() { err = m.r.Release(nil) })
 	if err != nil {
 		c.Fail("RELEASE_ERROR", m.site("Release"), sim.F{}, "Release returned %v", err)
 	}
@@ -394,6 +394,40 @@ func (m *readerModel) verifyKept(when string) {
 		}
 		if k.grow >= 3 {
 			m.c.Count("probe.slice_retained_across_3_growths")
+		}
+	}
+}
+
+// verifyKeptQuick re-checks retained slices after every operation: small slices fully,
+// large ones at both ends (the full comparison happens at the horizon).
+func (m *readerModel) verifyKeptQuick(when string) {
+	if !m.retain || len(m.kept) == 0 {
+		return
+	}
+	total := 0
+	for i := range m.kept {
+		total += len(m.kept[i].b)
+	}
+	if total <= 64<<10 {
+		m.verifyKept(when)
+		return
+	}
+	for i := range m.kept {
+		k := &m.kept[i]
+		n := len(k.b)
+		if n <= 512 {
+			continue
+		}
+		var bad int = -1
+		m.c.Guard("verify-retained/"+m.kind, func() {
+			for _, j := range []int{0, 1, n / 2, n - 2, n - 1} {
+				if k.b[j] != m.data[k.off+j] {
+					bad = j
+				}
+			}
+		})
+		if bad >= 0 {
+			m.verifyKept(when)
 		}
 	}
 }
